@@ -85,6 +85,8 @@ func fnAbs(f model.FunctionType) string {
 		return "discovery"
 	case model.FunctionTypeNodeManagementUseCaseData:
 		return "usecase"
+	case model.FunctionTypeNodeManagementDestinationListData:
+		return "destlist"
 	case model.FunctionTypeResultData:
 		return "result"
 	}
